@@ -536,6 +536,36 @@ def _run(pid, mod, tier, seed, replay, n_override, scratch, t0, violations, know
             "searched": {"operations": len(ops), "counts": counts}})
         violations.append(path + " no-failing-input-found")
 
+    # 5b. how much of the package the stream exercises: block coverage of /repo/jsonschema under a sample of this run's operations
+    cov = {}
+    try:
+        cexe = os.path.join(scratch, "vh-cover")
+        # the cover tool does not see files added through -overlay: build from a scratch copy of the harness directory that
+        # holds the generated file(s) for real
+        hcopy = os.path.join(scratch, "hcov")
+        shutil.copytree(HARNESS, hcopy)
+        if OVERLAY["path"]:
+            for dst, src in json.load(open(OVERLAY["path"]))["Replace"].items():
+                shutil.copyfile(src, os.path.join(hcopy, os.path.basename(dst)))
+        cmd = ["go", "build", "-tags", "verif", "-cover", "-coverpkg=github.com/google/jsonschema-go/jsonschema,verifharness", "-o", cexe]
+        rc, txt = sh(cmd + ["."], cwd=hcopy, env=GOENV)
+        if rc == 0:
+            cdir = os.environ.get("VERIF_COVDIR") or os.path.join(scratch, "cov")     # VERIF_COVDIR: accumulate over several checks
+            os.makedirs(cdir, exist_ok=True)
+            sample = ops[: (1500 if tier == "quick" else 20000)]
+            lines = "".join(wire.dumps({"id": o["id"], "op": o["op"], "args": o["args"]}) + "\n" for o in sample)
+            subprocess.run([cexe], input=lines, capture_output=True, text=True, env=dict(GOENV, GOCOVERDIR=cdir), timeout=600)
+            rc, txt = sh(["go", "tool", "covdata", "percent", "-i=" + cdir], env=GOENV)
+            m = re.search(r"jsonschema-go/jsonschema\s+coverage:\s+([0-9.]+)%", txt)
+            if m:
+                cov = {"go_statement_coverage_pct_of_package": float(m.group(1)), "operations_sampled": len(sample)}
+            else:
+                cov = {"error": "covdata: " + txt[-200:]}
+        else:
+            cov = {"error": "cover build: " + txt[-300:]}
+    except Exception as e:
+        cov = {"error": repr(e)[:200]}
+
     # 6. evidence
     fact_obl = getattr(mod, "FACT_OBLIGATIONS", [])
     ev = {
@@ -551,7 +581,7 @@ def _run(pid, mod, tier, seed, replay, n_override, scratch, t0, violations, know
             "fact_obligations": fact_obl,
             "evaluations": len(ops), "distinct_nontrivial": len(distinct), "rule": mod.RULE,
             "samples": samples, "traces_validated_against_impl": agree,
-            "classification": counts, "extra": extra, "filtered_before_go": filtered,
+            "classification": counts, "extra": extra, "filtered_before_go": filtered, "package_coverage": cov,
         },
         "assumptions": getattr(mod, "ASSUMPTIONS", []),
         "wall_s": round(time.time() - t0, 2),
